@@ -1,12 +1,13 @@
 /-
   Props/C19GenClock.lean — the regenerated `(*Pll).Do` (Gen/Leaf.lean) driving the clock object.
 
-  The PLL side is the code as it is in /repo now (`adjustments_Pll_Do`); the clock side is still
-  the hand-written model `Model/SysClock.lean` of driver/clocks/sysclk_linux.go: the leaf
-  translator covers `SystemClock.Drift` only — `Epoch/Step/Adjust` take a mutex, start a goroutine
-  and call `clock_adjtime`, which the translator does not read (request in the builder report).
-  Their tie remains the verbatim statement pins `C19_pin_sysclk_*` and the live runs of harness
-  c19clk.
+  The PLL side is the code as it is in /repo now (`adjustments_Pll_Do`). The clock side is the
+  hand-written model `Model/SysClock.lean` in the first part and — since the eighth generation of
+  the leaf translator reads `Epoch/Step/Adjust`, the `clock_adjtime` wrappers and the expiry
+  goroutine (Gen/LeafClocks.lean, Props/LeafC19Clock.lean) — THE REGENERATED CLOCK in the last part
+  (`C19_gen_clock_call`, `C19_gen_clock_epoch`, `C19_gen_product_clock`): every `Step`/`Adjust` the
+  regenerated `Do` records, executed by the regenerated method on the regenerated clock, is the
+  product model's `PllClock.call`, with the system calls (the `Timex` values) it stands for.
 
   `C19_gen_product`: running the generated `Do` with `l.clk.Epoch()` = the clock object's epoch and
   executing its recorded `Step`/`Adjust` calls on the clock model IS `PllClock.update` of the
@@ -14,6 +15,7 @@
 -/
 import ScionTime.Props.C19Gen
 import ScionTime.Props.C19Clock
+import ScionTime.Props.LeafC19Clock
 namespace ScionTime.Props.C19Gen
 open ScionTime ScionTime.F64 ScionTime.Pll ScionTime.Gen.Leaf ScionTime.LeafTieC19 ScionTime.Props.C19
 
@@ -32,12 +34,12 @@ theorem clkEpoch_toNat {c : SysClock.State} (h : c.epoch ≤ SysClock.maxU64) :
     executes exactly the recorded calls, in order, on the clock. -/
 theorem C19_gen_product (l : S_Pll) (c : SysClock.State) (hc : c.epoch ≤ SysClock.maxU64)
     (now : Int) (off : Int64) (w pw : F64) :
-    match adjustments_Pll_Do l off w (clkEpoch c) now pw with
+    match genDo l off w (clkEpoch c) now pw with
     | none => ∃ k, PllClock.update { pll := pl l, clk := c } now off.toInt w pw = .pllPanic k
     | some (l', acts) =>
       PllClock.update { pll := pl l, clk := c } now off.toInt w pw =
         PllClock.calls (pl l) (pl l') c [] (acts.map act) := by
-  cases hd : adjustments_Pll_Do l off w (clkEpoch c) now pw with
+  cases hd : genDo l off w (clkEpoch c) now pw with
   | none =>
     obtain ⟨k, hk⟩ := doCall_none (x := ⟨clkEpoch c, now, off, w, pw⟩) hd
     simp only [stepIn, Call.toIn, clkEpoch_toNat hc] at hk
@@ -54,13 +56,13 @@ theorem C19_gen_product (l : S_Pll) (c : SysClock.State) (hc : c.epoch ≤ SysCl
 theorem C19_gen_product_own_step_restarts (l l' : S_Pll) (c : SysClock.State)
     (hov : c.epoch < SysClock.maxU64) (now : Int) (off : Int64) (w pw : F64)
     (acts : List Go.ClkAction) (x : Int64)
-    (h : adjustments_Pll_Do l off w (clkEpoch c) now pw = some (l', acts))
+    (h : genDo l off w (clkEpoch c) now pw = some (l', acts))
     (hx : Go.ClkAction.step x ∈ acts) :
     ∃ c', PllClock.calls (pl l) (pl l') c [] (acts.map act) =
         .ok { pll := pl l', clk := c' } (SysClock.cancelActs c ++ [.setOffset x.toInt]) ∧
       SysClock.epoch c' = SysClock.epoch c + 1 ∧ c'.adjustment = none ∧
       ∀ (now' : Int) (off' : Int64) (w' pw' : F64),
-        adjustments_Pll_Do l' off' w' (clkEpoch c') now' pw' =
+        genDo l' off' w' (clkEpoch c') now' pw' =
           some ({ l' with epoch := clkEpoch c', mode := 1, t0 := now', t := now' }, []) := by
   have hc : c.epoch ≤ SysClock.maxU64 := by omega
   have hs := doCall_some (x := ⟨clkEpoch c, now, off, w, pw⟩) h
@@ -91,7 +93,7 @@ theorem C19_gen_product_external_step_restarts (l : S_Pll) (c : SysClock.State) 
     (hsync : l.epoch = clkEpoch c) (hc : c.epoch ≤ SysClock.maxU64)
     (hfin : (SysClock.final c ops).epoch ≤ SysClock.maxU64)
     (hstep : 1 ≤ SysClock.okSteps c ops) (now : Int) (off : Int64) (w pw : F64) :
-    adjustments_Pll_Do l off w (clkEpoch (SysClock.final c ops)) now pw =
+    genDo l off w (clkEpoch (SysClock.final c ops)) now pw =
       some ({ l with epoch := clkEpoch (SysClock.final c ops), mode := 1, t0 := now, t := now }, []) := by
   apply C19_gen_epoch_restarts
   intro heq
@@ -104,13 +106,135 @@ theorem C19_gen_product_external_step_restarts (l : S_Pll) (c : SysClock.State) 
     the clock's epoch becomes 1, and the fourth call (epoch 1 ≠ the PLL's 0) restarts. -/
 example :
     let w := ofInt 10
-    let l1 := next gInit (adjustments_Pll_Do gInit 5000000 w (clkEpoch SysClock.init) 100000000000 fzero)
-    let r2 := adjustments_Pll_Do l1 5000000 w (clkEpoch SysClock.init) 102000000001 fzero
+    let l1 := next gInit (genDo gInit 5000000 w (clkEpoch SysClock.init) 100000000000 fzero)
+    let r2 := genDo l1 5000000 w (clkEpoch SysClock.init) 102000000001 fzero
     let l2 := next l1 r2
     let c2 : SysClock.State := { SysClock.init with epoch := 1 }
     r2.map (·.2) = some [.step 5000000] ∧
     PllClock.calls (pl l1) (pl l2) SysClock.init [] [.step 5000000] = .ok { pll := pl l2, clk := c2 } [.setOffset 5000000] ∧
-    (adjustments_Pll_Do l2 5000000 w (clkEpoch c2) 108000000002 fzero).map (fun r => (r.1.mode, r.1.epoch, r.2)) =
+    (genDo l2 5000000 w (clkEpoch c2) 108000000002 fzero).map (fun r => (r.1.mode, r.1.epoch, r.2)) =
       some (1, 1, []) := by decide +kernel
+
+/-! ## the regenerated PLL on the regenerated clock -/
+
+open ScionTime.LeafTieC19Clock in
+/-- one recorded clock call of `Do`, executed by the regenerated method (both `clock_adjtime` calls
+    succeed) -/
+def genCall (c : S_SystemClock) (w : Go.World) : Go.ClkAction → Go.Out (S_SystemClock × Go.World)
+  | .step o => clocks_SystemClock_Step c o w false false
+  | .adjust o d f => clocks_SystemClock_Adjust c o d f w false
+
+open ScionTime.LeafTieC19Clock in
+/-- what `l.clk.Epoch()` returns on the regenerated clock is what the product model reads -/
+theorem C19_gen_clock_epoch (c : S_SystemClock) (w : Go.World) (p : List SysClock.Adj) :
+    clkEpoch (sc c w p) = clocks_SystemClock_Epoch c := by
+  unfold clkEpoch SysClock.epoch sc clocks_SystemClock_Epoch
+  simp
+
+open ScionTime.LeafTieC19Clock in
+/-- **Every clock call the regenerated `Do` records, executed by the regenerated clock method, is the
+    product model's call**: same clock state afterwards (for the list of started goroutines the model
+    keeps), the same system actions — as the `clock_adjtime` arguments `enc` spells out — appended to
+    the world, and a panic exactly when the model's call panics. -/
+theorem C19_gen_clock_call (c : S_SystemClock) (w : Go.World) (p : List SysClock.Adj) (a : Go.ClkAction) :
+    match PllClock.call (sc c w p) (act a) with
+    | .ok s acts => ∃ c' w', genCall c w a = .ok (c', w') ∧ sc c' w' s.pending = s ∧
+        w'.acts = w.acts ++ acts.flatMap enc
+    | .panic _ _ _ => ∃ m, genCall c w a = .panic m := by
+  cases a with
+  | step o =>
+    have h := C19_leaf_clock_Step c o w p
+    simp only [PllClock.call, act, genCall]
+    cases hm : SysClock.step (sc c w p) o.toInt with
+    | ok s acts =>
+      rw [hm] at h
+      obtain ⟨c', w', h1, h2, h3⟩ := h
+      have hp : s.pending = p := by rw [← h2]; rfl
+      exact ⟨c', w', h1, by rw [hp]; exact h2, h3⟩
+    | panic k s acts => rw [hm] at h; exact ⟨_, h⟩
+  | adjust o d f =>
+    have h := C19_leaf_clock_Adjust c o d f w p
+    simp only [PllClock.call, act, genCall]
+    cases hm : SysClock.adjust (sc c w p) o.toInt d.toInt f with
+    | ok s acts =>
+      rw [hm] at h
+      obtain ⟨c', w', a, h1, h2, h3, h4⟩ := h
+      exact ⟨c', w', h1, by rw [h2]; exact h3, h4⟩
+    | panic k s acts => rw [hm] at h; exact ⟨_, h⟩
+
+open ScionTime.LeafTieC19Clock in
+/-- `C19_gen_product` with the regenerated clock on the clock side: the regenerated `Do`, reading the
+    regenerated `Epoch()`, determines the product model's update on the view `sc c w p` of that
+    clock. -/
+theorem C19_gen_product_clock (l : S_Pll) (c : S_SystemClock) (wd : Go.World) (p : List SysClock.Adj)
+    (now : Int) (off : Int64) (w pw : F64) :
+    match genDo l off w (clocks_SystemClock_Epoch c) now pw with
+    | none => ∃ k, PllClock.update { pll := pl l, clk := sc c wd p } now off.toInt w pw = .pllPanic k
+    | some (l', acts) =>
+      PllClock.update { pll := pl l, clk := sc c wd p } now off.toInt w pw =
+        PllClock.calls (pl l) (pl l') (sc c wd p) [] (acts.map act) := by
+  have hc : (sc c wd p).epoch ≤ SysClock.maxU64 := by
+    have := UInt64.toNat_lt c.epoch
+    simp only [sc, SysClock.maxU64]; omega
+  rw [← C19_gen_clock_epoch c wd p]
+  exact C19_gen_product l (sc c wd p) hc now off w pw
+
+/-- all clock calls one `Do` records, executed in order by the regenerated methods -/
+def genCalls (c : S_SystemClock) (w : Go.World) : List Go.ClkAction → Go.Out (S_SystemClock × Go.World)
+  | [] => .ok (c, w)
+  | a :: rest => (genCall c w a).bind fun r => genCalls r.1 r.2 rest
+
+open ScionTime.LeafTieC19Clock in
+/-- **The regenerated PLL driving the regenerated clock**: executing the calls a `Do` recorded, in
+    order, on the regenerated clock IS `PllClock.calls` of the product model — the same clock state,
+    and the world has received exactly the system actions (`clock_adjtime` arguments, goroutine starts)
+    the model's actions stand for, in the same order; a panic of a clock method exactly when the
+    product panics there. -/
+theorem C19_gen_clock_calls (before after : Pll.State) :
+    ∀ (acts : List Go.ClkAction) (c : S_SystemClock) (w : Go.World) (p : List SysClock.Adj)
+      (done : List SysClock.Action),
+      match PllClock.calls before after (sc c w p) done (acts.map act) with
+      | .ok s out => ∃ c' w' more, genCalls c w acts = .ok (c', w') ∧ sc c' w' s.clk.pending = s.clk ∧
+          s.pll = after ∧ out = done ++ more ∧ w'.acts = w.acts ++ more.flatMap enc
+      | .clockPanic _ _ _ => ∃ m, genCalls c w acts = .panic m
+      | .pllPanic _ => False := by
+  intro acts
+  induction acts with
+  | nil =>
+    intro c w p done
+    show ∃ c' w' more, genCalls c w [] = .ok (c', w') ∧ sc c' w' (sc c w p).pending = sc c w p ∧
+      after = after ∧ done = done ++ more ∧ w'.acts = w.acts ++ more.flatMap enc
+    exact ⟨c, w, [], rfl, rfl, rfl, by simp, by simp⟩
+  | cons x rest ih =>
+    intro c w p done
+    have h := C19_gen_clock_call c w p x
+    simp only [List.map_cons, PllClock.calls, genCalls]
+    cases hc : PllClock.call (sc c w p) (act x) with
+    | ok s1 acts1 =>
+      rw [hc] at h
+      obtain ⟨c1, w1, hg, hs1, hw1⟩ := h
+      simp only [hg, Go.Out.bind]
+      have ih' := ih c1 w1 s1.pending (done ++ acts1)
+      rw [hs1] at ih'
+      cases hr : PllClock.calls before after s1 (done ++ acts1) (rest.map act) with
+      | ok s out =>
+        rw [hr] at ih'
+        obtain ⟨c', w', more, h1, h2, h3, h4, h5⟩ := ih'
+        refine ⟨c', w', acts1 ++ more, h1, h2, h3, ?_, ?_⟩
+        · rw [h4, List.append_assoc]
+        · rw [h5, hw1, List.flatMap_append, List.append_assoc]
+      | clockPanic k s out => rw [hr] at ih'; exact ih'
+      | pllPanic k => rw [hr] at ih'; exact ih'
+    | panic k s1 acts1 =>
+      rw [hc] at h
+      obtain ⟨m, hm⟩ := h
+      exact ⟨m, by simp only [hm, Go.Out.bind]⟩
+
+/-- non-vacuity: the 5 ms step the regenerated PLL records, executed by the regenerated `Step` on a
+    fresh regenerated clock: one `clock_adjtime` in nanosecond mode with `{0 s, 5000000 ns}`, epoch 1 -/
+example : (match genCall LeafTieC19Clock.c0 LeafTieC19Clock.w0 (.step 5000000) with
+    | .ok (c, w) => some (c.epoch, w.acts)
+    | _ => none) = some (1, [.clockAdjtime 0 { Modes := 0x2100, Time := (0, 5000000) }]) := by
+  decide +kernel
 
 end ScionTime.Props.C19Gen
